@@ -165,6 +165,18 @@ def _native_delete(form):
         exp_rel = {r for r in rel0 if r[0] not in ids and r[1] not in ids}
         bak = open(fn + ".bak", "rb").read()
         bad = got_ids != exp_ids or rel1 != exp_rel or bak != pre
+        if not bad and form == "str":
+            # the caller's own uncommitted work on the same object survives a delete() (merge_all stores a merged feature and
+            # then deletes its members): insert without commit, delete another feature, reopen
+            db3 = gffutils.FeatureDB(fn)
+            new = mk("fresh")
+            new.id = "fresh"
+            db3._insert(new, db3.conn.cursor())
+            db3.delete("z", make_backup=True)
+            after = sorted(f.id for f in gffutils.FeatureDB(fn).all_features())
+            want = sorted((set(exp_ids) | {"fresh"}) - {"z"})
+            if after != want:
+                return {"inputs": {"history": "_insert(fresh) without commit; delete('z', make_backup=True); reopen"}, "expected": want, "observed": after, "violates": True}
         return {"inputs": {"form": form}, "expected": [exp_ids, sorted(exp_rel)], "observed": [got_ids, sorted(rel1), "bak==pre: %s" % (bak == pre)], "violates": bad}
     finally:
         shutil.rmtree(d, ignore_errors=True)
@@ -311,7 +323,10 @@ def unit_update(U):
                     it.contracts[C._GFFDBCreator] = lambda interp, a, k: Creator("gff", k)
                     it.contracts[C._GTFDBCreator] = lambda interp, a, k: Creator("gtf", k)
                     ctx.stash.update(db=db, log=log, data=data)
-                    return it.call(I.FeatureDB.update, [db, "<src>"], {"make_backup": backup, "merge_strategy": "create_unique", "checklines": 3, "transform": None})
+                    fmf = ["source", "score"]
+                    ctx.stash["fmf"] = fmf
+                    return it.call(I.FeatureDB.update, [db, "<src>"], {"make_backup": backup, "merge_strategy": "create_unique", "checklines": 3, "transform": None,
+                                                                         "force_merge_fields": fmf, "disable_infer_genes": True, "verbose": False})
                 base = "C10.update[%s,%s,backup=%s]" % (fmt, "empty" if empty else "nonempty", backup)
                 for p in U.explore(run, it):
                     st = p.ctx.stash
@@ -334,12 +349,14 @@ def unit_update(U):
                         ok = (init[1] == ("gff" if fmt == "gff3" else "gtf") and kw.get("_autoincrements") is db._autoincrements and kw.get("dbfn") == db.dbfn and kw.get("dialect") is db.dialect
                               and kw.get("data") is st["data"] and kw.get("merge_strategy") == "create_unique" and log[2][1] is st["data"]
                               and kw.get("id_spec") == ("ID" if fmt == "gff3" else {"gene": "gene_id", "transcript": "transcript_id"})
-                              and log[0][2] == {"checklines": 3, "transform": None})
+                              and log[0][2] == {"checklines": 3, "transform": None}
+                              # every importer option the caller gives reaches the importer (as create_db would pass it)
+                              and kw.get("force_merge_fields") is st["fmf"] and kw.get("disable_infer_genes") is True and kw.get("verbose") is False)
                     if not ok:
                         U.notes.append("update log: %r" % ([(l[0], l[1] if len(l) > 1 else None) for l in log],))
                         U.notes.append("kw: %r" % (log[1][2] if len(log) > 1 else None,))
                     U.prove(base + ".route#p%d" % p.index,
-                            "the importer class follows the stored dialect's format, works on the open database with the *same* counter map object, gets the default id_spec of the format and the caller's merge_strategy; populate, second-level relations, finalize run in this order",
+                            "the importer class follows the stored dialect's format, works on the open database with the *same* counter map object, gets the default id_spec of the format, the caller's merge_strategy and every other importer option given (force_merge_fields, disable_infer_*, verbose); populate, second-level relations, finalize run in this order",
                             [], z3.BoolVal(bool(ok)), {})
 
     # _DBCreator.__init__ keeps the counter map it is given (identity) ; _finalize writes it back ; FeatureDB.__init__ reloads it
